@@ -59,3 +59,9 @@ package ice
 //@   site call readStreamingPacket#1 ghost failed := result1 != nil
 //@   site call removeConn#1 assert detached-on-error: failed && arg1 == conn
 //@   site call handleRecv#2 assert delivers-framed-length: !failed && len(arg1.Data) == n && arg1.Err == nil
+
+// A packet is either delivered whole or refused: the reported length never
+// exceeds the bytes actually copied into the caller's buffer.
+//@ func (*tcpPacketConn).readFromContext
+//@   props C14
+//@   ensures never-reports-more-than-it-delivered: err == nil ==> result0 <= len(b)
